@@ -1,8 +1,13 @@
 #!/bin/bash
 # seed_eval.sh <seed-name> <property-id> : apply /verif/seeded/<seed-name>/patch.diff to /repo, run the
 # property's quick check, undo the patch, and record whether the check raised a VIOLATION.
+# The evidence file written by the run against the changed tree is kept beside the seed
+# (evidence_with_change.json); /verif/evidence/<id>.json is restored to the clean-tree run.
 name=$1; id=$2; d=/verif/seeded/$name
-cd /repo && git apply $d/patch.diff || { echo "patch does not apply"; exit 2; }
+[ -f /verif/evidence/$id.json ] && cp /verif/evidence/$id.json /verif/evidence/.$id.clean
+cd /repo && git apply $d/patch.diff || { echo "patch does not apply"; rm -f /verif/evidence/.$id.clean; exit 2; }
 cd /verif && ./check $id > $d/check_output.txt 2>&1; rc=$?
 git -C /repo checkout -- .
+[ -f /verif/evidence/$id.json ] && mv /verif/evidence/$id.json $d/evidence_with_change.json
+[ -f /verif/evidence/.$id.clean ] && mv /verif/evidence/.$id.clean /verif/evidence/$id.json
 echo "[$name] check $id exit=$rc: $(grep -c VIOLATION $d/check_output.txt) VIOLATION line(s)"; grep VIOLATION $d/check_output.txt | head -3; tail -1 $d/check_output.txt
